@@ -8,7 +8,7 @@
     registered.  `NoRelW.selected_iff`: in such a world `Selected` does not look at the tables.
     `NoRelW.tablesInv`: `TablesInv` follows from `SInv` and `RInv`.
   * `FInv w` — the filter-side invariant: `CacheInv`, `RInv`, the agreement of the filter heap
-    with the cache (`HeapOK`), the component index (`CIdx`), the lock pool, the cache's ID pool.
+    with the cache (`HeapOK`), the component index (`CIdxH`), the lock pool, the cache's ID pool.
     `FInv.quiet`, `FInv.foc`, `FInv.reg`, `FInv.shrink`, `FInv.reset`: kept by row-level steps, by
     `findOrCreateTableAdd`, by `registerComponent`, by `Shrink`, by `Reset` (which empties the
     cache and unregisters every filter object).
@@ -184,7 +184,7 @@ structure FInv (w : World) : Prop where
   cache : CacheInv w
   rinv : RInv w
   heap : HeapOK w
-  cidx : CIdx w
+  cidx : CIdxH w
   /-- the lock-bit pool is consistent and no bit is outstanding -/
   lock : ∃ (lf : List Nat), Lock.LInv ⟨w.locks, []⟩ lf
   pool : CachePoolOK w
@@ -1292,7 +1292,7 @@ def reach2 (run : ProbeRunner) (cap rel : Nat) (ops : List Op2) : St :=
 
 /-- **the inductive invariant of the machine with filters**: the invariant of the entity machine
     (`HInv` ⊇ `CInv` ⊇ `SInv`, `IdxInv`) and the filter-side invariant (`CacheInv`, `RInv`,
-    `HeapOK`, `CIdx`, lock pool, cache ID pool).  `TablesInv` follows (`HInv2.tablesInv`). -/
+    `HeapOK`, `CIdxH`, lock pool, cache ID pool).  `TablesInv` follows (`HInv2.tablesInv`). -/
 structure HInv2 (s : St) (fl : List Nat) : Prop where
   base : HInv s fl
   finv : FInv s.w
